@@ -116,6 +116,10 @@ pub fn handle(op: &str, args: &[&str], text: &str) -> String {
             &CompProg::from_str(text),
             num(lim),
         )),
+        // the Python-facing wrapper (a Boolean: "recurs or spins out")
+        ("recpy", [lim]) => {
+            crate::wrappers::py_quick_term_or_rec(text, num(lim)).to_string()
+        },
         ("tapeops", [ops]) => {
             let mut tape = BasicTape::init(0);
             let cs: Vec<char> = ops.chars().collect();
